@@ -149,7 +149,7 @@ Definition skip_space (s : list ch) (ln : Z) := skip_space_f (S (length s)) s ln
 
 Definition is_len_char (c : ch) : bool :=
   is_digit c || (c =? c_DOT) || (c =? c_HAT) || (c =? c_PCT) || (c =? c_MINUS) || (c =? c_PLUS).
-Definition is_len_blank (c : ch) : bool := (c =? c_SP) || (c =? c_BAR) || (c =? c_TAB).
+Definition is_len_blank (c : ch) : bool := (c =? c_SP) || (c =? c_BAR) || (c =? c_TAB) || (c =? c_CR).   (* CR: a CRLF line break before ^ continues the length like LF *)
 
 (* get_note_length: the characters of a length; blanks and bars inside are dropped; a line
    break continues the length only when the next non-blank character is '^'. On roll-back
